@@ -214,8 +214,10 @@ def s2(ctx, rep):
     ok = rem is not None and U(d[mv].args[0]).endswith(f"[{rem}]")
     rep.put(ok, "S2", "agreement", "nondominated_sort: front computed on the remaining rows; remaining = remaining[~mask]", f, loops[0],
             f"mask = pareto_efficient(X[{rem}])", "the remaining set is not reduced by exactly the current front")
-    front = [k for k, v in d.items() if isinstance(v, ast.Subscript) and U(v.value) == rem and U(v.slice) == mv]
-    ok = len(front) == 1
+    front = [k for k, v in d.items() if isinstance(v, ast.Subscript) and rem is not None and U(v.value) == rem and U(v.slice) == mv]
+    if not front:
+        front = [k for k, v in d.items() if isinstance(v, ast.Subscript) and U(v.slice) == mv] or ["?"]
+    ok = len(front) == 1 and rem is not None
     app = [x for s in body for x in walk_shallow(s) if isinstance(x, ast.Call) and fn_name(x) == "append"]
     ok = ok and len(app) == 1 and U(app[0].args[0]).startswith(front[0] + "[")
     rep.put(ok, "S2", "agreement", "nondominated_sort: each round appends exactly the current front (permuted)", f, app[0] if app else None, "")
@@ -230,7 +232,7 @@ def s2(ctx, rep):
             ok = isinstance(src, ast.Call) and fn_name(src) == "compute_epsilon_net" and f"[{front[0]}]" in U(src.args[0])
     rep.put(ok, "S2", "agreement", "nondominated_sort: within-layer order is a permutation computed on that layer", f, None, "")
     # the loop runs while rows remain
-    ok = f"{rem}.size > 0" in U(loops[0].test) or f"len({rem})" in U(loops[0].test)
+    ok = rem is not None and (f"{rem}.size > 0" in U(loops[0].test) or f"len({rem})" in U(loops[0].test))
     rep.put(ok, "S2", "agreement", "nondominated_sort: loops until no row remains (or max_items)", f, loops[0], U(loops[0].test))
 
 
